@@ -71,8 +71,8 @@ instance (t : IntT) (v : Int) : Decidable (t.inDom v) := by unfold IntT.inDom; i
 /-- custom `Type` subclasses defined in packet modules and `Position`; their codecs live in
 `Model/Position.lean` (C04) and `Model/Custom.lean`, plugged in through `CustomCodec`. -/
 inductive CustomT
-  | position (newer : Bool) | secpos | record (v741 : Bool) | explRecord (newer : Bool)
-  | effectPos | pitch | nbt
+  | position (newer : Bool) | secpos | record (v741 : Bool) | explRecord
+  | effectPos | pitch (f32 : Bool) (scaled : Bool) | nbt
 deriving DecidableEq, Repr
 
 /-- length-prefix types used by `PrefixedArray` in the library -/
